@@ -124,6 +124,16 @@ def render(form, opts, value):
     kind, src = source(form, opts)
     try:
         t = tmpl(kind, src)
+    except Exception as e:
+        return e, src
+    # the same text was shown before as trusted data (equal to the tainted
+    # value, and with the same hash): what was remembered for it, if
+    # anything, is not the answer for request data
+    try:
+        t(x=str(value))
+    except Exception:       # noqa: only the history matters
+        pass
+    try:
         return t(x=TaintedString(value)), src
     except Exception as e:          # noqa: an exception is not output
         return e, src
